@@ -224,6 +224,8 @@ def classify_diff(sa, sb) -> Tuple[str, str]:
         if x == "FLOAT_CONSTANT" and y == "INTEGER_CONSTANT":
             return "prettify:float-literal:integral-rendered-as-integer", what
         return "prettify:float-literal:value-changed", what
+    if cf == "DefIdentifier._right_condition":
+        return "prettify:hierarchical-rule:code-item-condition-dropped", what
     if cf.endswith(".isLast"):
         return "prettify:join-body-aggr:moved-after-join", what
     if cf.startswith("HRule.") or cf.startswith("HRBinOp.") or "rules[" in path and any(n.get("_") == "HRuleset" for n in sa if isinstance(n, dict)):
@@ -526,9 +528,7 @@ def run(ctx):
     ctx.cov["corpus_past_failures"] = len(past)
 
     # ---- every parseable corpus script (quick: a sample)
-    paths = G.corpus_scripts()
-    if quick:
-        paths = ctx.rng.sample(paths, 250)
+    paths = G.stratified_corpus(260) if quick else G.corpus_scripts()      # quick: fixed stratified sample, independent of the seed
     n_parse = n_ok = 0
     for p in paths:
         try:
@@ -611,8 +611,7 @@ def run(ctx):
 
     # ---- test-suite scripts with data: run(original) = run(prettified)
     n_suite = 8 if quick else 400
-    sp = G.corpus_scripts()
-    ctx.rng.shuffle(sp)
+    sp = G.stratified_corpus()          # fixed order (seed-independent); the first n_suite scripts with small data are run
     done = cmp_ok = 0
     for pth in sp:
         if done >= n_suite:
